@@ -21,6 +21,10 @@ def phys_variants(reg):
     raise ModelError("unknown regime %r" % (reg,))
 
 
+INEXACT = [[(5e-7, 0.0, "micro-nd")], [(1e-6 / 3, 2.5e-5, "micro-nd-off")], [(0.1, 0.0, "deci")], [(0.3, -7.7, "deci-off")], [(1.5e-6, 0.0, "micro-1.5")],
+           [(0.7, 1234.5, "far-nd")], [(1e-3, -0.0567, "milli")]]
+
+
 def validate(rows):
     return vlib.tlc_validate_records(SPEC, "GridTrace", "GridTrace.cfg", rows, chunk=1200)
 
@@ -48,7 +52,14 @@ def run(tier, seed, replay=None):
             for unit, off, name in phys_variants(tuple(st["reg"])):
                 cases.append({"k": len(cases) + 1, "lo": list(st["lo"]), "hi": list(st["hi"]), "s": st["s"],
                               "reg": list(st["reg"]), "objs": [list(p) for p in st["objs"]],
-                              "unit": unit, "off": off, "phys": name})
+                              "unit": unit, "off": off, "phys": name, "exact": True})
+            # embeddings with a unit that is NOT a power of two (every coordinate and the voxel size are rounded; the extent is a
+            # rounded multiple of the voxel size): the design is not exact there, the property must hold all the same, with a
+            # distance of exactly one voxel size left to rounding
+            for unit, off, name in INEXACT[len(cases) % len(INEXACT)]:
+                cases.append({"k": len(cases) + 1, "lo": list(st["lo"]), "hi": list(st["hi"]), "s": st["s"],
+                              "reg": list(st["reg"]), "objs": [list(p) for p in st["objs"]],
+                              "unit": unit, "off": off, "phys": name, "exact": False})
     if replay:
         with open(replay) as f:
             cases = [json.load(f)["case"]["case"]]
